@@ -70,15 +70,21 @@ PROPS = {
         "level_text": "Billing arithmetic (floor(elapsed*price/interval) per active peer, client debited the exact sum, hosts/zero elapsed/empty peer set move nothing, slicing bounds for every schedule and unbounded prices, consecutive keep-alives bill consecutive disjoint intervals) are Lean theorems over the balance-manager and pool models; the models are compared with the real code (manager clock injected) on both drivers.",
         "level_note": POOL_NOTE,
         "lean_modules": ["Vipnode.Props.C02"],
-        "streams": pool_streams(60, 600) + pool_streams(150, 2000, gen="pool-billing", prefix="billing"),
-        "monitor": monitors.c02_billing,
+        "streams": pool_streams(60, 600) + pool_streams(150, 2000, gen="pool-billing", prefix="billing") + [
+            # the operator's price flag through the built binary (pool.go: flag parsing and wiring)
+            {"name": "poolbin-flags", "component": "poolbin", "cases": {"quick": 30, "thorough": 200}},
+        ],
+        "monitor": monitors.c02_binary,
     },
     "C03": {
         "level_text": "The minimum-balance decision logic is stated outright in both directions (connect_refused_iff, update_cutoff_iff, hosts_never_refused, cutoff_disconnects) as Lean theorems over the balance-manager and pool models, which are compared with the real code on both drivers, with deposits injected through the contract proxy.",
         "level_note": POOL_NOTE,
         "lean_modules": ["Vipnode.Props.C03"],
-        "streams": pool_streams(60, 600) + pool_streams(150, 2000, gen="pool-minbal", prefix="minbal"),
-        "monitor": monitors.c03_cutoff,
+        "streams": pool_streams(60, 600) + pool_streams(150, 2000, gen="pool-minbal", prefix="minbal") + [
+            # the operator's flags through the built binary (pool.go: flag parsing and wiring)
+            {"name": "poolbin-flags", "component": "poolbin", "cases": {"quick": 30, "thorough": 200}},
+        ],
+        "monitor": monitors.c03_binary,
     },
     "C04": {
         "level_text": "Over an ideal signature scheme (laws as hypotheses, satisfiable: toyScheme), the signed payload determines method, identity, nonce and parameters (payload_injective, with the bracket-freeness of every registered RPC name re-proved by `decide` on names regenerated from the method registry), so any alteration or foreign key is refused (altered_is_refused, other_key_refused), honest requests are accepted (honest_accepted) and every signed endpoint of the pool model changes state only for a request signed by the identity it names (endpoint_acts_only_if_signed). The implementation is driven with real keys and real signatures: valid requests plus single-component alterations on every signed endpoint, state dumped after each.",
@@ -231,7 +237,7 @@ PROPS = {
         "level_text": "Contract clauses (unregistered = error, balances follow the wallet, trial migrated exactly once and shared, active-host query contract, statistics = true counts, ledger effect of every operation, well-formedness of every reachable store) are Lean theorems about the executable reference model of the documented store contract, for all states and arguments; both drivers are compared with that model op by op on generated histories, so a driver that deviates from the other deviates from the model. Refinement (Props/C12R.lean): each driver's methods are transcribed line by line (Model/Drivers.lean: badger's order of key reads, memory's peers-inside-the-node-record layout and map defaults) and proved to answer and change state exactly as the contract model on every state reachable by store calls (badger_run_eq, badger_queries_eq under the invariant BInv; memory_run_related under the refinement relation MemR), hence drivers_agree / drivers_agree_keepalive: after any history every query and every keep-alive answers identically through both drivers; both ActiveHosts selection loops satisfy the contract predicate for every iteration order and shuffle (drivers_activeHosts_valid).",
         "level_note": "Theorems are about Model/Store.lean; its tie to memory.go/badger.go is differential (sampled). Trusted: badger transaction atomicity, gob round-trip, the harness's clock bracketing.",
         "technique": "Lean 4 proof over reference model + differential correspondence on both drivers",
-        "lean_modules": ["Vipnode.Props.C12", "Vipnode.Props.C12R"],
+        "lean_modules": ["Vipnode.Props.C12", "Vipnode.Props.C12R", "Vipnode.Props.C12K"],
         "streams": store_streams(400, 4000),
         "cross_driver": True,
         "assumptions": ["badger transaction atomicity", "clock readings observed by the harness (LastSeen read back; bracketed reads away from boundaries)"],
